@@ -23,7 +23,7 @@ def is_reset(r):
 
 def run(ctx):
     ctx.level = "proof"
-    proved = vlib.prove(ctx, ["Properties_C04.v"], facts=["cred", "base64"])
+    proved = vlib.prove(ctx, ["Properties_C04.v"], facts=["cred", "base64", "cfun"])
     ctx.log("proofs:", "ok" if proved else "BROKEN: " + getattr(ctx, "broken_obligation", "?"))
     ctx.cov["rule"] = ("cases = (auth_uid in {ANY, client, other, 0}) x (auth_gid in {ANY, client primary, supplementary via "
                        "the generated group+passwd databases, non-member, 0}) x client (root / non-root, several gids) x "
